@@ -52,3 +52,13 @@ check("C12", "S", "exploration", "reference-model monitor: in-memory backend in 
       "objects must not be touched.",
       "Trusted: the model's reading of the README table and of the undocumented check_mode (second letter r/f when the root is missing, first "
       "letter f recreates the root). The in-memory backend is not a SourcedStateBackend.", "DESIGN.md §3 C12")
+
+check("C13", "S", "exploration", "recording stub transport/local hooks under the real SourcedStateBackend / RootSourcedStateBackend; label-based scope oracle; in-memory file table under the real QCOW2ImageTransfer",
+      "All ordered source lists of up to three of five labelled source kinds x all 16 scope subsets x show/get/set/unset are enumerated "
+      "(state placements and cache validity sampled), longer random lists for lxc, remote and serial own workers, and all root "
+      "operations x scope subsets x root presence x image equality; the transport call log must show: only permitted sources "
+      "contacted, get uses exactly one closest permitted source and downloads iff present and cache invalid, set/unset reach "
+      "every permitted mirror, refusals raise. Layer 2 keeps the real QCOW2ImageTransfer over an in-memory file table with "
+      "generated backing chains: compare_chain == file-by-file equality, valid cache => no download, invalid => exactly the chain's files.",
+      "Trusted: source labels as ground truth for scopes; the proximity order own path > same host > same gateway > other. "
+      "Remote (ssh/scp) transports are outside the workload.", "DESIGN.md §3 C13")
